@@ -98,15 +98,17 @@ class Check:
             json.dump(ev, f, indent=1, default=str)
         for k in self.known_hits:
             print("KNOWN-FINDING: property=%s %s" % (self.pid, k["what"]))
-        if self.machinery_errors:
-            for m in self.machinery_errors:
-                print("MACHINERY-ERROR: %s" % m)
-            return 2
         if self.violations:
             for v in self.violations:
                 print("VIOLATION property=%s replay=%s" % (self.pid, v["replay"]))
                 print("  what: %s" % v["what"])
+            for m in self.machinery_errors:
+                print("NOTE (machinery): %s" % m)
             return 1
+        if self.machinery_errors:
+            for m in self.machinery_errors:
+                print("MACHINERY-ERROR: %s" % m)
+            return 2
         print("OK property=%s tier=%s states=%d transitions=%d traces=%d wall=%.1fs" % (
             self.pid, self.tier, self.states, self.transitions, self.traces, wall))
         return 0
